@@ -30,6 +30,11 @@ CLAIMED["C12"] = ("determinism: set-iteration order as solver variables (ordered
 CLAIMED["C18"] = ("word-wrap transparency with the WIDTH as the solver variable: fill/line_length rebound to a symbolic int in every doctrans module, "
     "real textwrap executed symbolically on concrete text, parse(wrapped) vs parse(unwrapped); the DOCTRANS_LINE_LENGTH read path re-executed from "
     "pure_utils' own AST with a symbolic digit string", "DESIGN.md#c18")
+_SY = ("the real conformance.ground_truth / __main__.main on an in-memory file system with real black; the configuration vector is a solver "
+       "variable and is exhausted path by path (finite, solver-enumerated); file contents are concrete because they cross ast.parse/black")
+CLAIMED["C09"] = ("sync agreement for every truth kind x given kinds x target pre-state x function|method x description: " + _SY, "DESIGN.md#c09")
+CLAIMED["C10"] = ("sync histories of 1..3 invocations with solver-chosen truth kinds from every pre-state combination: idempotence, truth file "
+    "never opened for writing, report == byte changes: " + _SY, "DESIGN.md#c10")
 NA = {
     "C19": "gen: every data path crosses importlib / inspect.getsource / compile+exec / file output, no symbolic data path is left; what remains is enumeration of a few concrete configurations, which is not this technique (DESIGN.md §C19)",
 }
